@@ -788,46 +788,75 @@ Section Logic.
     - intro. jauto.
   Qed.
 
-  Definition rps_ok (r : hrps) : Prop := rps_ndelta r <= 255.
+  (* NumDeltaPocs is a uint8 and the loop over an inter-predicted set is `for j := byte(0); j <= numDeltaPocs; j++`,
+     which does not terminate for 255 (the model's rep_n (NumDeltaPocs + 1) is that loop for <= 254 only): the
+     bound that matters is 254.  An inter-predicted set has at most one entry more than its reference, an explicit
+     one at most 16 + 16: after k sets every NumDeltaPocs is <= 31 + k, and the guard num_short_term_ref_pic_sets
+     <= 64 keeps that at <= 95. *)
+  Definition rps_le (K : N) (r : hrps) : Prop := rps_ndelta r <= K.
+  Definition rps_ok (r : hrps) : Prop := rps_ndelta r <= 254.
+
+  Lemma countb_le (l : list bool) : countb l <= lenN l.
+  Proof.
+    unfold countb, lenN. induction l as [|b t IH]; cbn [filter length]; [lia|].
+    destruct b; cbn [length]; lia.
+  Qed.
+
+  Lemma u8_le x : u8 x <= x.
+  Proof. unfold u8. apply N.mod_le. discriminate. Qed.
 
   Lemma J_hparse_rps_inter_entry : J (fun _ => True) (hparse_rps_inter_entry R).
   Proof. unfold hparse_rps_inter_entry. jauto. Qed.
 
-  (* the index sets[idx - didx] is in range as soon as `sets` has at least idx entries *)
-  Lemma J_hparse_st_rps idx num sets : (N.to_nat idx <= length sets)%nat -> Forall rps_ok sets ->
-    J rps_ok (hparse_st_rps R idx num sets).
+  (* the index sets[idx - didx] is in range as soon as `sets` has at least idx entries; the new set has at most
+     one entry more than the largest set so far (and at most 32 if it is coded explicitly) *)
+  Lemma J_hparse_st_rps_K K idx num sets : (N.to_nat idx <= length sets)%nat -> Forall (rps_le K) sets -> K <= 254 ->
+    J (rps_le (N.max 32 (K + 1))) (hparse_st_rps R idx num sets).
   Proof.
-    intros Hl Hok. unfold hparse_st_rps.
+    intros Hl Hok HK. unfold hparse_st_rps.
     eapply J_bind_true; [jauto|]. intros inter. destruct inter.
     - eapply J_bind_true; [jauto|]. intros didx.
       destruct ((didx =? 0) || (idx <? didx)) eqn:Hg.
-      { eapply J_bind_true; [apply J_set_err|]. intro. apply J_ret. unfold rps_ok. cbn [rps_ndelta hrps_zero]. lia. }
+      { eapply J_bind_true; [apply J_set_err|]. intro. apply J_ret. unfold rps_le. cbn [rps_ndelta hrps_zero]. lia. }
       eapply J_bind_true; [jauto|]. intro. eapply J_bind_true; [jauto|]. intro.
       destruct (nth_error sets (N.to_nat (idx - didx))) as [ref|] eqn:Hn.
       2:{ exfalso. apply nth_error_None in Hn. lia. }
-      assert (Hr : rps_ok ref) by (eapply Forall_forall; [exact Hok|eapply nth_error_In; exact Hn]).
-      unfold rps_ok in Hr.
-      eapply J_bind_true; [eapply J_true; apply J_rep_n; [unfold loop_bound; lia|apply J_hparse_rps_inter_entry]|].
-      intro. apply J_ret. unfold rps_ok. cbn [rps_ndelta]. bnd.
+      assert (Hr : rps_le K ref) by (eapply Forall_forall; [exact Hok|eapply nth_error_In; exact Hn]).
+      unfold rps_le in Hr.
+      eapply J_bind; [apply (J_rep_n (fun _ => True)); [unfold loop_bound; lia|apply J_hparse_rps_inter_entry]|].
+      intros fls [Hlen _]. apply J_ret. unfold rps_le. cbn [rps_ndelta].
+      pose proof (u8_le (countb (map snd fls))) as H1. pose proof (countb_le (map snd fls)) as H2.
+      unfold lenN in H2, Hlen. rewrite map_length in H2. lia.
     - eapply J_bind_true; [jauto|]. intro. eapply J_bind_true; [jauto|]. intro. cbv zeta.
-      destruct ((16 <? u8 a) || (16 <? u8 a0)).
-      { eapply J_bind_true; [apply J_set_err|]. intro. apply J_ret. unfold rps_ok. cbn [rps_ndelta]. lia. }
+      destruct ((16 <? u8 a) || (16 <? u8 a0)) eqn:Hg.
+      { eapply J_bind_true; [apply J_set_err|]. intro. apply J_ret. unfold rps_le. cbn [rps_ndelta]. lia. }
       eapply J_bind_true; [jauto|]. intro. eapply J_bind_true; [jauto|]. intro.
-      apply J_ret. unfold rps_ok. cbn [rps_ndelta]. bnd.
+      apply J_ret. unfold rps_le. cbn [rps_ndelta]. pose proof (u8_le (u8 a + u8 a0)). lia.
   Qed.
 
+  Lemma J_hparse_st_rps idx num sets : (N.to_nat idx <= length sets)%nat -> Forall rps_ok sets ->
+    J (fun _ => True) (hparse_st_rps R idx num sets).
+  Proof. intros Hl Hok. eapply J_true. apply (J_hparse_st_rps_K 254); [exact Hl|exact Hok|lia]. Qed.
+
+  Lemma rps_le_mono K K' r : K <= K' -> rps_le K r -> rps_le K' r.
+  Proof. unfold rps_le. lia. Qed.
+
   Lemma J_hparse_rps_loop : forall cnt idx num acc,
-    length acc = N.to_nat idx -> Forall rps_ok acc ->
-    J (fun l => length l = (N.to_nat idx + cnt)%nat /\ Forall rps_ok l) (hparse_rps_loop R cnt idx num acc).
+    length acc = N.to_nat idx -> Forall (rps_le (31 + idx)) acc -> idx + N.of_nat cnt <= 64 ->
+    J (fun l => length l = (N.to_nat idx + cnt)%nat /\ Forall (rps_le (31 + idx + N.of_nat cnt)) l)
+      (hparse_rps_loop R cnt idx num acc).
   Proof.
-    induction cnt as [|c IH]; intros idx num acc Hl Hok; cbn [hparse_rps_loop].
-    - apply J_ret. split; [lia|exact Hok].
-    - eapply J_bind; [apply (J_hparse_st_rps idx num acc); [lia|exact Hok]|]. intros r Hr.
+    induction cnt as [|c IH]; intros idx num acc Hl Hok Hb; cbn [hparse_rps_loop].
+    - apply J_ret. split; [lia|]. eapply Forall_impl; [|exact Hok]. intros r. apply rps_le_mono. lia.
+    - eapply J_bind; [apply (J_hparse_st_rps_K (31 + idx) idx num acc); [lia|exact Hok|lia]|]. intros r Hr.
       eapply J_bind_true; [apply J_get_err|]. intros e. destruct e; [apply J_fail|].
       eapply J_weaken; [apply (IH (idx + 1) num (acc ++ [r]))|].
       + rewrite app_length. cbn [length]. lia.
-      + apply Forall_app. split; [exact Hok|constructor; [exact Hr|constructor]].
-      + intros l [H1 H2]. split; [lia|exact H2].
+      + apply Forall_app. split.
+        * eapply Forall_impl; [|exact Hok]. intros x. apply rps_le_mono. lia.
+        * constructor; [|constructor]. revert Hr. apply rps_le_mono. lia.
+      + lia.
+      + intros l [H1 H2]. split; [lia|]. eapply Forall_impl; [|exact H2]. intros x. apply rps_le_mono. lia.
   Qed.
 
   Lemma J_hskip_scaling_entry size_id : J (fun _ => True) (hskip_scaling_entry R size_id).
@@ -932,6 +961,15 @@ Section Logic.
      number of entries (so ShortTermRefPicSets[idx - deltaIdx] is in range) and every NumDeltaPocs is a uint8 *)
   Definition hsps_wf (sp : hsps) : Prop :=
     (N.to_nat (h_num_st_rps sp) <= length (h_st_rps sp))%nat /\ Forall rps_ok (h_st_rps sp).
+  (* what ParseSPSNALUnit itself guarantees: at most 64 sets, every NumDeltaPocs <= 95 *)
+  Definition hsps_tight (sp : hsps) : Prop :=
+    h_num_st_rps sp <= 64 /\ lenN (h_st_rps sp) = h_num_st_rps sp /\ Forall (rps_le 95) (h_st_rps sp).
+
+  Lemma hsps_tight_wf sp : hsps_tight sp -> hsps_wf sp.
+  Proof.
+    intros (H1 & H2 & H3). split; [unfold lenN in H2; lia|].
+    eapply Forall_impl; [|exact H3]. intros r Hr. unfold rps_ok, rps_le in *. lia.
+  Qed.
 
   (* steps through binds with trivial postconditions up to (not including) a bind whose first program matches `stop` *)
   Ltac jupto stop :=
@@ -946,7 +984,7 @@ Section Logic.
             | |- J _ (if ?c then fail else _) => destruct c eqn:?; [apply J_fail|]
             end).
 
-  Lemma J_hparse_sps_d : J hsps_wf (hparse_sps_d R fuel).
+  Lemma J_hparse_sps_d : J hsps_tight (hparse_sps_d R fuel).
   Proof.
     unfold hparse_sps_d.
     Ltac jsub ::= first
@@ -959,11 +997,13 @@ Section Logic.
       | apply J_more | apply J_trailing ].
     jupto (@hparse_rps_loop).
     match goal with |- J _ (bind (hparse_rps_loop R (N.to_nat ?nst) _ _ _) _) =>
-      eapply J_bind; [apply (J_hparse_rps_loop (N.to_nat nst) 0 nst []); [reflexivity|constructor]|];
-      intros sets [Hlen Hok]; assert (Hnst : nst <= 64) by lia end.
+      assert (Hnst : nst <= 64) by lia;
+      eapply J_bind; [apply (J_hparse_rps_loop (N.to_nat nst) 0 nst []); [reflexivity|constructor|lia]|];
+      intros sets [Hlen Hok] end.
     jupto (@hparse_end).
-    apply J_hparse_end. unfold hsps_wf. cbn [h_num_st_rps h_st_rps]. split; [|exact Hok].
-    unfold u8. rewrite N.mod_small by lia. lia.
+    apply J_hparse_end. unfold hsps_tight. cbn [h_num_st_rps h_st_rps].
+    unfold u8. rewrite N.mod_small by lia. split; [exact Hnst|]. split; [unfold lenN; lia|].
+    eapply Forall_impl; [|exact Hok]. intros r. apply rps_le_mono. lia.
   Qed.
 
   (* ================================================================== HEVC PPS *)
@@ -1016,33 +1056,101 @@ Section Logic.
 
   Definition hpps_wf (pp : hpps) : Prop := pp_num_extra_bits pp <= 255.
 
-  Ltac joupto stop :=
-    repeat (lazymatch goal with
-            | |- JO _ (bind ?m _) =>
-                lazymatch m with
-                | context [stop] => fail
-                | _ => eapply JO_bind_true; [jauto|]; intro
-                end
-            | |- JO _ (let _ := _ in _) => cbv zeta
-            | |- JO _ (match ?p with pair _ _ => _ end) => destruct p
-            | |- JO _ (if ?c then fail else _) => destruct c eqn:?; [apply J_JO, J_fail|]
-            | |- JO _ (if ?c then out_of_fuel else _) => destruct c eqn:?; [apply JO_oof|]
-            end).
+  (* ---- the PPS multilayer / 3D extension skeletons of C16HevcParseModel.v *)
+  Lemma J_four_se : J (fun _ => True) (four_se R).
+  Proof. unfold four_se. jauto. Qed.
+  Lemma J_four_ue : J (fun _ => True) (four_ue R).
+  Proof. unfold four_ue. jauto. Qed.
 
-  (* OutOfFuel = the PPS selects the multilayer or the 3D extension, which C15HevcModel does not cover *)
-  Lemma JO_hparse_pps_d spsmap : JO hpps_wf (hparse_pps_d R fuel spsmap).
+  Lemma Dw_hml_ref_loc_entry : Dw (hml_ref_loc_entry R).
+  Proof.
+    unfold hml_ref_loc_entry. apply Dw_bind_l; [apply D_Dw, D_rd; lia|]. intro.
+    Ltac jsub ::= first [ apply J_four_se | apply J_four_ue ].
+    jauto.
+  Qed.
+
+  Lemma J_hoct_coeff res : J (fun _ => True) (hoct_coeff R res).
+  Proof. unfold hoct_coeff. jauto. Qed.
+
+  Lemma J_hoct_entry res : J (fun _ => True) (hoct_entry R res).
+  Proof.
+    unfold hoct_entry. eapply J_bind_true; [apply J_flag|]. intros f. destruct f; [|apply J_ret; exact I].
+    eapply J_bind_true; [eapply J_true; apply (J_rep (fun _ => True)); apply J_hoct_coeff|]. intro. apply J_ret. exact I.
+  Qed.
+
+  Lemma J_hoct_leaf p res : J (fun _ => True) (hoct_leaf R p res).
+  Proof.
+    unfold hoct_leaf. eapply J_bind_true; [|intro; apply J_ret; exact I].
+    eapply J_true. apply (J_rep (fun _ => True)). eapply J_true. apply (J_rep (fun _ => True)). apply J_hoct_entry.
+  Qed.
+
+  (* the recursion is on the remaining depth: at most 8^3 leaves *)
+  Lemma J_hoctants : forall d p res, J (fun _ => True) (hoctants R d p res).
+  Proof.
+    induction d as [|d IH]; intros p res; cbn [hoctants].
+    - eapply J_bind_true; [apply J_hoct_leaf|]. intro. jauto.
+    - eapply J_bind_true; [apply J_flag|]. intros sp.
+      eapply J_bind_true.
+      + destruct sp; [|apply J_hoct_leaf].
+        eapply J_bind_true; [eapply J_true; apply (J_rep (fun _ => True)); apply IH|]. intro. apply J_ret. exact I.
+      + intro. jauto.
+  Qed.
+
+  Lemma J_hparse_cm_table : J (fun _ => True) (hparse_cm_table R fuel).
+  Proof.
+    unfold hparse_cm_table.
+    Ltac jsub ::= first [ apply J_rue_rd; lia | apply J_hoctants ].
+    jauto.
+  Qed.
+
+  Lemma J_hparse_pps_ml_d : J (fun _ => True) (hparse_pps_ml_d R fuel).
+  Proof.
+    unfold hparse_pps_ml_d.
+    Ltac jsub ::= first
+      [ eapply J_true; apply J_rep_until_err_f; [assumption | apply Dw_hml_ref_loc_entry]
+      | apply J_hparse_cm_table ].
+    jauto.
+  Qed.
+
+  Lemma J_hparse_delta_dlt w : J (fun _ => True) (hparse_delta_dlt R fuel w).
+  Proof.
+    unfold hparse_delta_dlt.
+    Ltac jsub ::= first [ apply J_rue_rd; lia ].
+    jauto.
+  Qed.
+
+  Lemma Dw_hparse_depth_layer bd : Dw (hparse_depth_layer R fuel bd).
+  Proof.
+    unfold hparse_depth_layer. apply Dw_bind_l; [apply D_Dw, D_flag|]. intro.
+    Ltac jsub ::= first
+      [ eapply J_true; apply J_rep_until_err_f; [assumption | apply D_Dw, D_flag]
+      | apply J_hparse_delta_dlt ].
+    jauto.
+  Qed.
+
+  Lemma J_hparse_pps_3d_d : J (fun _ => True) (hparse_pps_3d_d R fuel).
+  Proof.
+    unfold hparse_pps_3d_d.
+    Ltac jsub ::= first
+      [ eapply J_true; apply J_rep_until_err_f; [assumption | apply Dw_hparse_depth_layer] ].
+    jauto.
+  Qed.
+
+  (* every PPS: the range, multilayer, 3D and SCC extension bodies included *)
+  Lemma J_hparse_pps_d spsmap : J hpps_wf (hparse_pps_d R fuel spsmap).
   Proof.
     unfold hparse_pps_d.
     Ltac jsub ::= first
       [ eapply J_true; apply J_rep_until_err_f; [assumption | apply D_Dw, D_ue]
       | apply J_hskip_scaling_list_data
       | apply J_hparse_pps_range_d | apply J_hparse_pps_scc_d
+      | apply J_hparse_pps_ml_d | apply J_hparse_pps_3d_d
       | eapply J_true; apply J_hext_data_loop; assumption
       | eapply J_true; apply (J_rep_n (fun _ => True)); [bnd | ]
       | eapply J_true; apply (J_rep (fun _ => True))
       | apply J_more | apply J_trailing ].
-    joupto (@hparse_end).
-    apply J_JO, J_hparse_end. unfold hpps_wf. cbn [pp_num_extra_bits]. bnd.
+    jupto (@hparse_end).
+    apply J_hparse_end. unfold hpps_wf. cbn [pp_num_extra_bits]. bnd.
   Qed.
 
   (* ================================================================== HEVC slice segment header *)
